@@ -113,6 +113,22 @@ func UnmarshalFrom(r Reader, v interface{}) error {
 // A Decoder decodes go values from an Ion reader.
 type Decoder struct {
 	r Reader
+
+	// depth counts the containers being decoded at the moment.
+	depth int
+}
+
+// MaxDecodeDepth bounds the nesting of the values a Decoder accepts. Decoding recurses once per
+// level; without a bound a few megabytes of opening brackets overflow the goroutine stack, which
+// cannot be recovered from.
+const maxDecodeDepth = 10000
+
+func (d *Decoder) enter() error {
+	d.depth++
+	if d.depth > maxDecodeDepth {
+		return fmt.Errorf("ion: value is nested more than %d levels deep", maxDecodeDepth)
+	}
+	return nil
 }
 
 // NewDecoder creates a new decoder.
@@ -147,6 +163,11 @@ func (d *Decoder) Decode() (interface{}, error) {
 func (d *Decoder) decode() (interface{}, error) {
 	if d.r.IsNull() {
 		return nil, nil
+	}
+
+	defer func() { d.depth-- }()
+	if err := d.enter(); err != nil {
+		return nil, err
 	}
 
 	switch d.r.Type() {
@@ -293,6 +314,11 @@ func (d *Decoder) decodeTo(v reflect.Value) error {
 	if !v.IsValid() {
 		// Don't actually have anywhere to put this value; skip it.
 		return nil
+	}
+
+	defer func() { d.depth-- }()
+	if err := d.enter(); err != nil {
+		return err
 	}
 
 	isNull := d.r.IsNull()
